@@ -54,6 +54,15 @@ func (c *channel) VerifTrySubmitCommandResult(respCmd *ResponseCommand) bool {
 	return c.trySubmitCommandResult(respCmd)
 }
 
+// VerifWebsocketConn returns the network connection under a WebSocket transport
+// (nil for other transports), so that a harness can fill its socket buffers.
+func VerifWebsocketConn(t Transport) net.Conn {
+	if ws, ok := t.(*websocketTransport); ok && ws.conn != nil {
+		return ws.conn.UnderlyingConn()
+	}
+	return nil
+}
+
 // VerifConfig returns the configuration the Server runs with.
 func (srv *Server) VerifConfig() *ServerConfig {
 	return srv.config
